@@ -173,10 +173,45 @@ def run_statd(binary, specs, what, build="dev"):
 
 
 def judge_statd_lines(binary, reqs, what, build="dev"):
-    rc, res, err = C.run_lines(binary, ["run"], reqs, timeout=7200)
+    """a request with ` parts=k` is run as k independent harness processes in parallel (samples/k each, seeds seed..seed+k-1) and judged on the summed histogram"""
+    import re
+    from concurrent.futures import ThreadPoolExecutor
+    jobs = []      # (index of the request, harness line)
+    for i, q in enumerate(reqs):
+        m = re.search(r" parts=(\d+)", q)
+        if not m:
+            jobs.append((i, q))
+            continue
+        k = int(m.group(1))
+        base = q.replace(m.group(0), "")
+        n = int(base.split("samples=")[1].split()[0])
+        sd = int(base.split("seed=")[1].split()[0])
+        for j in range(k):
+            jobs.append((i, base.replace("samples=%d" % n, "samples=%d" % (n // k)).replace("seed=%d" % sd, "seed=%d" % ((sd + j) & ((1 << 64) - 1)))))
+    single = [j for j in jobs if " parts=" not in reqs[j[0]]]
+    multi = [j for j in jobs if " parts=" in reqs[j[0]]]
+    outs = {}
+    if single:
+        rc, res, err = C.run_lines(binary, ["run"], [q for _, q in single], timeout=7200)
+        for (i, _), o in zip(single, res):
+            outs[i] = o
+    if multi:
+        with ThreadPoolExecutor(max_workers=16) as ex:
+            res = list(ex.map(lambda q: C.run_lines(binary, ["run"], [q], timeout=7200)[1][0], [q for _, q in multi]))
+        for (i, _), o in zip(multi, res):
+            if o in ("panic", "bad-request") or "," not in o:
+                outs[i] = o
+            elif i not in outs:
+                outs[i] = o
+            elif "," in outs[i]:
+                outs[i] = ",".join(str(int(a) + int(b)) for a, b in zip(outs[i].split(","), o.split(",")))
     total = 0
-    for req, out in zip(reqs, res):
+    for i, req in enumerate(reqs):
+        out = outs.get(i, "panic")
         n = int(req.split("samples=")[1].split()[0])
+        m = re.search(r" parts=(\d+)", req)
+        if m:
+            n = (n // int(m.group(1))) * int(m.group(1))
         total += n
         if out in ("panic", "bad-request") or "," not in out:
             yield {"kind": "oracle", "build": build, "request": req, "impl": out, "model": "", "oracle": "statistics request failed: " + out}
@@ -185,3 +220,19 @@ def judge_statd_lines(binary, reqs, what, build="dev"):
         if msg:
             yield {"kind": "oracle", "build": build, "request": req, "impl": out[:800], "model": "", "oracle": msg}
     yield {"kind": "count", "what": what, "n": total, "distinct": len(reqs)}
+
+
+def tail_request(kind, w, samples, seed, gen, parts=16, cells=12):
+    """the law INSIDE the tails: all the bulk in one cell, the region beyond T (3.5 for the normal, 7 for the exponential: it contains the
+    whole region the ziggurat hands to its tail sampler) cut into `cells` cells of equal probability per side"""
+    if kind == "norm":
+        nd = NormalDist()
+        T = 3.5
+        pt = 1 - nd.cdf(T)
+        up = [-nd.inv_cdf(pt * (1 - j / cells)) for j in range(cells)]        # T = up[0] < up[1] < ...
+        e = sorted([-x for x in up] + up)
+    else:
+        T = 7.0
+        pt = math.exp(-T)
+        e = [-math.log(pt * (1 - j / cells)) for j in range(cells)]
+    return "statd dist=%s w=%d a=0 b=0 samples=%d seed=%d gen=%s parts=%d edges=%s" % (kind, w, samples, seed, gen, parts, ",".join(str(f2b(x)) for x in e))
